@@ -111,12 +111,20 @@ func (s *Entry) newChildLogger(args ...any) *Entry {
 
 	var name string
 	var ok bool
-	if len(args) == 0 {
-		name = stringtool.RandomStringPure(6)
-	} else if name, ok = args[0].(string); !ok || name == "" {
-		name = stringtool.RandomStringPure(6)
+	if len(args) > 0 {
+		name, ok = args[0].(string)
 	}
-	if l, ok := s.items[name]; ok {
+	if !ok || name == "" {
+		// anonymous: a new child every time. The random names are seeded
+		// from the clock and short, so draw until the name is unused -
+		// otherwise a collision silently returns an existing child.
+		for {
+			name = stringtool.RandomStringPure(6)
+			if _, used := s.items[name]; !used {
+				break
+			}
+		}
+	} else if l, ok := s.items[name]; ok {
 		return l
 	}
 
